@@ -34,7 +34,10 @@ CLAIMS = {
                 "required, with the table's first beta node / the float32-eps constant as clamps; no table look-up "
                 "disables its bounds check; interpolation coordinates follow the table's axis roles; the result is "
                 "z*10**log_e_nu; the sampler returns the iterator's allocated operand; the row-wise inversion has "
-                "complementary bracket masks, paired (x0,y0)/(x1,y1) and the linear formula. It does NOT decide "
+                "complementary bracket masks, paired (x0,y0)/(x1,y1) and the linear formula; the CDF table of a Taus object "
+                "is the file of ITS configured table version, also when another object was constructed before it in "
+                "the same process (two-construction history: state kept between constructions must be keyed on the "
+                "version). It does NOT decide "
                 "F(z)=u numerically, monotonicity in u or the range of z.",
         "technique": "value-flow graph + length-class typing of masks, truth-table partition coverage, dependence "
                      "roles of interpolation coordinates, polynomial normal form",
@@ -45,7 +48,8 @@ CLAIMS = {
                 "angles use the first beta node; the look-up keeps its bounds check for BOTH coordinates (bounds_error not "
                 "switched off, decided before anything else); point order follows the table "
                 "axes; history independence as an effect property - the only write to instance state in a call is the "
-                "idempotent clamp X[X<=0]=k (k>0) and every other read of the table goes through it. It does NOT "
+                "idempotent clamp X[X<=0]=k (k>0) and every other read of the table goes through it; the exit-probability "
+                "table of an object is the file of ITS configured version under the two-construction history. It does NOT "
                 "decide node reproduction or the convexity bound (scipy on values).",
         "technique": "value-flow graph + effect/alias analysis relative to the entry point, truth-table predicates",
     },
@@ -108,7 +112,8 @@ CLAIMS = {
                 "stored with 0, with -inf as default, and every consumer reads the masked yield; the coordinate arrays the "
                 "optical stage hands to the kernel batch select the same events as its angle / altitude / energy "
                 "arrays and are the stage's own coordinates (the cloud top is looked up at the event's own "
-                "location); shipped maps are "
+                "location), and a repeated look-up takes nothing from an earlier event at another location unless an "
+                "exact location test selects it (two-call history); shipped maps are "
                 "audited (data audit). It does NOT decide cell containment at cell edges/poles.",
         "technique": "value-flow graph + must/must-not dependence with flow kinds, unit inference, effect ordering; data audit",
     },
@@ -200,7 +205,9 @@ CLAIMS = {
         "text": "Decides writer/reader agreement of the header schema: the header is the whole flattened model_dump() "
                 "under 'HIERARCH Config' with separator ' ' (however the meta dictionary is assembled), a per-value filter on "
                 "the way into the header leaves every value a card can hold (None, bool, int, str, finite float) "
-                "unchanged; the flattener is decided from the effects of its generator "
+                "unchanged; the flattener is evaluated on every configuration shape of the schema (nesting and field names "
+                "concrete, values symbolic, one run per union variant: exactly one entry per field under its joined "
+                "path, whatever the algorithm) and, when it has the generator shape, additionally decided from the effects of its generator "
                 "body (every non-mapping item emitted under parent+sep+key, every mapping recursed with the same "
                 "separator, nothing skipped); a missing key is detected by a presence test, not by truthiness; every key config_from_fits reads "
                 "exists in the writer's key set for every union variant that can reach the read (guards on the "
@@ -237,7 +244,9 @@ CLAIMS = {
                 "tables, isothermal branch by lapse rate == 0, inclusive layer selection (boundary in the upper layer) "
                 "in both directions over all layers in order (the index array read as a decision list, or as a count / "
                 "searchsorted on the monotone table), no narrowing cast or rounding on the value path (the stated "
-                "1e-6 needs double precision), zero pressure <-> "
+                "1e-6 needs double precision), the two layer formulas (exponential / logarithm for isothermal layers, "
+                "power law for gradient layers) and the geometric <-> geopotential conversion against reference "
+                "formulas cell by cell, zero pressure <-> "
                 "infinite altitude with nothing left undefined in any cell; literal-table sanity "
                 "(equal lengths, monotone heights/pressures, sentinel) and equality with the 1976 US Standard "
                 "Atmosphere reference values. It does NOT decide the 1e-6 round trip or behaviour next to boundaries.",
